@@ -386,7 +386,7 @@ def obligations(tier):
     kv0 = [{"n": 0, "skel": k} for k in skels]
     kv1_quick = ["raw_line", "raw_val", "raw_top"]
     kv1 = [{"n": 1, "skel": k} for k in (kv1_quick if quick else skels)]
-    obls.append(Obl("kv.parse", MOD, "h_kv", slices=kv0 + kv1, budget_s=900, per_path_s=60,
+    obls.append(Obl("kv.parse", MOD, "h_kv", slices=kv0 + kv1, budget_s=900 if quick else 2700, per_path_s=60,
                     desc="Keyvalues.parse returns a tree or raises exactly KeyValError (any other exception is a violation); one str == pieces; "
                          "3 flag truth values and 5 parse options symbolic",
                     bound="12 skeletons with len(w) == 0; len(w) == 1 in " + (", ".join(kv1_quick) if quick else "all skeletons")))
